@@ -6,6 +6,7 @@
 (*   units   burner workloads                                                   *)
 (*   fix     contents of the kernel's statistics files                          *)
 EXTENDS Integers, Sequences, FiniteSets, TLC, Json, SequencesExt
+CONSTANT WithRace3
 
 \* every order in which G creators can be released R times each
 Scheds(G, R) == { s \in [1..(G * R) -> 1..G] : \A g \in 1..G : Cardinality({ i \in 1..(G * R) : s[i] = g }) = R }
@@ -44,10 +45,10 @@ FixUint ==
   \cup { Fix(r, <<>>, FALSE, FALSE) : r \in Uint } \cup { Fix(r, <<>>, TRUE, FALSE) : r \in Uint }
 
 ASSUME ndJsonSerialize("race2.ndjson", SetToSeq(Race2))
-ASSUME ndJsonSerialize("race3.ndjson", SetToSeq(Race3))
+ASSUME ndJsonSerialize("race3.ndjson", IF WithRace3 THEN SetToSeq(Race3) ELSE <<>>)
 ASSUME ndJsonSerialize("units.ndjson", SetToSeq(Units))
 ASSUME ndJsonSerialize("fix.ndjson", SetToSeq(FixCpu \cup FixUint))
-ASSUME PrintT(<<"generated", Cardinality(Race2), Cardinality(Race3), Cardinality(Units), Cardinality(FixCpu \cup FixUint)>>)
+ASSUME PrintT(<<"generated", Cardinality(Race2), Cardinality(Units), Cardinality(FixCpu \cup FixUint)>>)
 VARIABLE x
 Init == x = 0
 Next == UNCHANGED x
